@@ -241,6 +241,48 @@ func runC17(r *mc.Run) {
 		})
 		r.SectionDone(mc.Section{Name: "index-sweep", Evaluations: int64(done), Exhaustive: done == len(idxs)*2, Note: fmt.Sprintf("%d indices x {digest, event log}", len(idxs))})
 	}
+	// event log sizes: whatever its length, the log is measured whole — SHA-384 of all of it is what gets extended
+	// (lengths around block sizes, powers of two and the megabyte range; twin logs that differ in the last byte only)
+	{
+		sizes := []int{1, 47, 48, 49, 63, 64, 65, 111, 112, 127, 128, 129, 255, 256, 257, 4095, 4096, 4097, 65535, 65536, 65537,
+			1<<20 - 1, 1 << 20, 1<<20 + 1, 1<<20 + 4096, 3 << 20, 1<<24 + 1}
+		if r.Thorough() {
+			sizes = append(sizes, 1<<26+1, 1<<28+3)
+		}
+		done := r.Parallel(len(sizes)*2, func(n int) {
+			size, twin := sizes[n/2], n%2 == 1
+			id := fmt.Sprintf("event-log-size/%d/last-byte-flipped=%v", size, twin)
+			if !r.Want(id) {
+				return
+			}
+			lg := make([]byte, size)
+			for i := range lg {
+				lg[i] = byte(i*7 + i>>8 + i>>16)
+			}
+			if twin {
+				lg[size-1] ^= 0x01
+			}
+			sum := sha512.Sum384(lg)
+			op := c17op{name: fmt.Sprintf("eventlog(idx=2,hash=SHA-384,len=%d)", size), valid: true, index: 2, digest: sum[:]}
+			t := world.NewTSM()
+			var err error
+			func() { defer world.Recover(&err); err = rtmr.ExtendEventLogClient(t, 2, crypto.SHA384, lg) }()
+			out := c17Judge(r, id, op, err, t.Log, "", t)
+			var want [4][48]byte
+			if err == nil {
+				h := sha512.New384()
+				h.Write(want[2][:])
+				h.Write(sum[:])
+				copy(want[2][:], h.Sum(nil))
+			}
+			if t.Regs != want {
+				r.Violate("register-differs-from-extend-chain:event-log-size", id, "after extending an event log the register is not the extend chain of SHA-384(whole log)", map[string]any{"log_bytes": size})
+				out = "bad-register"
+			}
+			r.Eval(id, true, "event-log-size:"+out)
+		})
+		r.SectionDone(mc.Section{Name: "event-log-sizes", Evaluations: int64(done), Exhaustive: done == len(sizes)*2, Note: fmt.Sprintf("%d lengths x {log, twin with the last byte flipped}", len(sizes))})
+	}
 	r.Set("alphabet_size", len(ops))
 	r.Set("initial_states", len(inits))
 	r.Set("depth_all_initial_states", depthAll)
